@@ -1985,42 +1985,8 @@ func TestC11(t *testing.T) {
 		}
 	})
 
-	// (R5) --yaml-output: the same claim for the YAML writer.  Keys with a
-	// non-letter character are a known finding (C11.F1) and left out while it
-	// is listed as known.
-	rec.Rapid(t, "cli-yaml", rec.Scale(36, 700), func(t *rapid.T) {
-		c := cliCase{Flags: []string{"--yaml-output"}, Perm: rapid.IntRange(0, 1000).Draw(t, "perm")}
-		nv := 60
-		for i := 0; i < nv; i++ {
-			hard := rapid.IntRange(0, 2).Draw(t, "hard") == 0
-			if hard && rec.KnownClass(yamlClass) {
-				rec.Excluded(yamlClass)
-				hard = false
-			}
-			top := make(map[string]any)
-			for n := rapid.IntRange(2, 9).Draw(t, "ytop"); n > 0; n-- {
-				top[genYAMLKey(t, hard)] = genYAMLVal(t, 2, hard)
-			}
-			var v any = top
-			if rapid.IntRange(0, 5).Draw(t, "ywrap") == 0 {
-				v = []any{v, genYAMLVal(t, 2, hard)}
-			}
-			if rec.KnownClass(yamlClass) && hasNonLetterKey(v) {
-				t.Fatalf("%s", rec.Fail("cli-yaml", c, "harness: excluded class generated"))
-			}
-			c.Vals = append(c.Vals, univ.V{X: v})
-		}
-		rec.EvalN(int64(nv))
-		for _, v := range c.Vals {
-			if maxKeys(v.X) >= 2 {
-				rec.NT("cli-yaml/" + univ.Show(v.X))
-				rec.Class("cli-yaml/object-with->=2-keys")
-			} else {
-				rec.Class("cli-yaml/trivial")
-			}
-		}
-		if msg := checkCLI(c); msg != "" {
-			t.Fatalf("%s", rec.Fail("cli-yaml", c, "%s", msg))
-		}
-	})
+	// (R5) removed: --yaml-output key order.  The YAML writer delegates key
+	// ordering to the YAML library ("natural" order); the property's claim is
+	// about jq's own writers (encoder.go, cli/encoder.go), so the YAML order is
+	// not asserted here (see DESIGN.md section 8).
 }
